@@ -10,7 +10,7 @@ set_option linter.unusedVariables false
 namespace Program
 section
 variable {σ V : Type} [DecidableEq V]
-variable {S : List Ref} {V0 : List (Option (View V))} {ops : Ops σ V} {cfg : Cfg V}
+variable {I : σ → Heap (Cell V) → Prop} {S : List Ref} {V0 : List (Option (View V))} {ops : Ops σ V} {cfg : Cfg V}
 
 /-! ### reading a recorded event -/
 
@@ -158,11 +158,11 @@ theorem EvMatch.kind_facts {se : SEv} {ce : Event (View V)} (h : EvMatch V0 ρ b
 
 /-- what one pass through the body of `advance`'s loop does, for every schedule whose loop body has
     the right dataflow -/
-theorem gen_spec (hR : Respects S ops) (hS : S.length = 5) (sc : Schedule) (hwf : wfGen sc = true)
-    {st : State σ V} (g : Good cfg.depth S V0 st) (cur : List Ref)
+theorem gen_spec (hR : Respects I S ops) (hS : S.length = 5) (sc : Schedule) (hwf : wfGen sc = true)
+    {st : State σ V} (g : Good I cfg.depth S V0 st) (cur : List Ref)
     (hcur : five.map st.regs = cur.map some) (l0 : cur.length = 5) :
     ∃ (st' : State σ V) (es : List (Event (View V))) (cur' : List Ref) (out : List (Item (View V))),
-      execList (execR ops cfg sc) sc.advanceGen st = st' ∧ Good cfg.depth S V0 st' ∧
+      execList (execR ops cfg sc) sc.advanceGen st = st' ∧ Good I cfg.depth S V0 st' ∧
       st'.trace = st.trace ++ es ∧ st'.t = st.t + 1 ∧ st'.rep = st.rep ∧ st'.ngen = st.ngen ∧
       five.map st'.regs = cur'.map some ∧ cur'.length = 5 ∧ out.map Prod.fst = cur' ∧
       es.length = 8 ∧ (∀ e ∈ es, e.rep = st.rep ∧ e.kind ≠ .log .initialize ∧ e.kind ≠ .init) ∧
@@ -253,10 +253,10 @@ theorem gen_spec (hR : Respects S ops) (hS : S.length = 5) (sc : Schedule) (hwf 
 
 /-! ### the generation loop -/
 
-theorem gens_spec (hR : Respects S ops) (hS : S.length = 5) (sc : Schedule) (hwf : wfGen sc = true) (n : Nat) :
-    ∀ {st : State σ V}, Good cfg.depth S V0 st → ∀ (cur : List Ref), five.map st.regs = cur.map some → cur.length = 5 →
+theorem gens_spec (hR : Respects I S ops) (hS : S.length = 5) (sc : Schedule) (hwf : wfGen sc = true) (n : Nat) :
+    ∀ {st : State σ V}, Good I cfg.depth S V0 st → ∀ (cur : List Ref), five.map st.regs = cur.map some → cur.length = 5 →
     ∃ (st' : State σ V) (es : List (Event (View V))) (cur' : List Ref),
-      iter (execList (execR ops cfg sc) sc.advanceGen) n st = st' ∧ Good cfg.depth S V0 st' ∧
+      iter (execList (execR ops cfg sc) sc.advanceGen) n st = st' ∧ Good I cfg.depth S V0 st' ∧
       st'.trace = st.trace ++ es ∧ st'.t = st.t + n ∧ st'.rep = st.rep ∧ st'.ngen = st.ngen ∧
       five.map st'.regs = cur'.map some ∧ cur'.length = 5 ∧ es.length = 8 * n ∧
       (∀ e ∈ es, e.rep = st.rep ∧ e.kind ≠ .log .initialize ∧ e.kind ≠ .init) ∧
